@@ -7,7 +7,7 @@
   abstraction of the translated skeleton (`abs`).
 
   What is written by hand here is the meaning of the Rust constructs the translator emits (the same role as the emission
-  rules of `gen_interp.py`): overflow-checked `+ - *` on `usize`/`u64`/`isize` (the harness is a debug build), wrapping `as`
+  rules of `gen_interp.py`): overflow-checked `+ - *` on `usize`/`u64`/`isize` (the harness is built with overflow-checks = true and debug-assertions = true), wrapping `as`
   casts, array indexing with a bounds panic, `?` on `Err`, `return Ok(..)`, and the accessors of `stack.rs::StackFrame`
   (which are one-line field reads and writes).
 -/
